@@ -146,6 +146,7 @@ fn judge_paths(paths: &[String], what: &str, replay: serde_json::Value, loc: &mu
                     if why2 == "timeout" {
                         CONFIRMED_HANGS.fetch_add(1, Ordering::Relaxed);
                         loc.outcome("confirmed hang");
+                        loc.already_confirmed = true; // run twice already (worker, then alone)
                         let key = if what.contains("truncat") { "eof inside PDU/FRAME or another loop (hang on truncation)" } else { "load does not terminate" };
                         loc.violation(key, format!("gather_fibex_data did not return within {:?} (first attempt: {}, {:?}) and again not within {:?} when run alone: {}", DEADLINE, why, t0.elapsed(), SOLO_DEADLINE, what), replay);
                     } else {
